@@ -8,6 +8,7 @@ git -C /repo worktree remove --force $W 2>/dev/null
 git -C /repo worktree add -q --detach $W HEAD || exit 2
 for d in /verif/seeded/*/; do
   id=$(basename $d); prop=$(python3 -c "import json,sys; print(json.load(open('$d/meta.json'))['breaks_property'])")
+  if python3 -c "import json,sys; sys.exit(0 if 'neutralised_by' in json.load(open('$d/meta.json')) else 1)"; then echo "$id $prop neutralised-by-a-later-repair (skipped)"; continue; fi
   if ! git -C $W apply --check $d/patch.diff 2>/dev/null; then echo "$id $prop PATCH-DOES-NOT-APPLY"; continue; fi
   git -C $W apply $d/patch.diff
   out=$(VERIF_REPO=$W ./tools/check $prop 2>&1); rc=$?
